@@ -4,6 +4,7 @@ import XV.Lemmas.UndoObs
 import XV.Lemmas.UndoFee
 import XV.Lemmas.UndoBlock
 import XV.Lemmas.UndoWalk
+import XV.Lemmas.PlayWalk
 /-!
 C01 — the state at a block is a pure function of its chain: undoing exactly cancels playing.
 
@@ -1534,5 +1535,101 @@ example :
     let s : St := { applyPool wkEnv4 [22] (canon wkEnv4 wkG 2) with pool := [22] }
     (play wkEnv4 s 0 (wkEnv4.block 4)).2 = .utxo ∧ (play wkEnv4 s 0 (wkEnv4.block 4)).1.pool = [22] ∧
     (todoBlock wkEnv4 (canon wkEnv4 wkG 2) 0 (wkEnv4.block 4)).isSome = false := by decide
+
+-- ================================================================== the ghost log is the path root..pointer
+
+/-- **the chain-shape invariant**: the ghost log of confirmed transaction ids (the `C` of `XV.C02.Ledger`) is the
+concatenation of the transactions of the blocks on the path from the root to the pointer, oldest block first -/
+def ChainLog (e : Env) (s : St) (C : List Nat) : Prop :=
+  C = XV.C02.blockTxs e (ancestors e (e.blocks.length + 1) s.pointer).reverse
+
+instance (e : Env) (s : St) (C : List Nat) : Decidable (ChainLog e s C) := by unfold ChainLog; exact inferInstance
+
+theorem blockTxs_append (e : Env) (l1 l2 : List Nat) : blockTxs e (l1 ++ l2) = blockTxs e l1 ++ blockTxs e l2 := by
+  unfold blockTxs; simp
+
+/-- **`walk` keeps the ledger invariant and, when it succeeds, the chain-shape invariant — with no hypothesis tying the
+ghost log to the blocks `walk` undoes.** `hundo` of `XV.C02.walk_Ledger` is discharged by `ChainLog`: in a block tree whose
+parent links go strictly down in height, the path root..pointer is `pre ++ undo.reverse` and the path root..dest is
+`pre ++ todo` for one common `pre` (`undoTodo_paths`), so the blocks to undo are exactly the suffix of the log. The remaining
+hypotheses speak of the destination's path only: its transaction ids are pairwise distinct (`hnd`), the transactions of the
+blocks to apply are known under their ids and a coinbase among them has no inputs and no fee (`hblk`), a pending
+transaction that the destination's path confirms has a token input (`hre`; needed: `walk_Ledger_needs_hre`). After a
+successful walk the pair (`Ledger`, `ChainLog`) holds again, for the log of the destination's path. -/
+theorem walk_Ledger_chain (e : Env) (s : St) (lh : Int) (dest : Nat) (prune : Bool) (C : List Nat)
+    (hpl : ParentLower e) (h : Ledger e s C) (hc : ChainLog e s C) (hid : (e.block dest).id = dest)
+    (hnd : (blockTxs e (ancestors e (e.blocks.length + 1) dest).reverse).Nodup)
+    (hblk : ∀ bi ∈ (undoTodo e s.pointer dest).2, (∀ i ∈ (e.block bi).txs, (e.tx i).id = i) ∧
+      (∀ i ∈ (e.block bi).txs, (e.tx i).coinbase = true → (e.tx i).ins = [] ∧ feeOf (e.tx i).outs = 0))
+    (hre : ∀ i ∈ s.pool, i ∈ blockTxs e (ancestors e (e.blocks.length + 1) dest).reverse → (e.tx i).ins ≠ []) :
+    ∃ C', Ledger e (walk e s lh dest prune).1 C' ∧
+      ((walk e s lh dest prune).2 = true → ChainLog e (walk e s lh dest prune).1 C') := by
+  obtain ⟨pre, h1, h2⟩ := undoTodo_paths e s.pointer dest hpl
+  unfold ChainLog at hc
+  rw [h1, blockTxs_append] at hc
+  rw [h2, blockTxs_append] at hnd hre
+  obtain ⟨C', c1, c2⟩ := walk_Ledger e s lh dest prune C (blockTxs e pre) h hc hnd hblk hre
+  refine ⟨C', c1, fun hok => ?_⟩
+  unfold ChainLog
+  rw [walk_reaches_any e s lh dest prune hpl hid hok, h2, blockTxs_append]
+  exact c2 hok
+
+-- non-vacuity: the history of the `Ledger` example of C02 in a tree with heights (so that `ParentLower` holds):
+--   block 10 = [100 (genesis coinbase 16)] on the unregistered block 0; submissions 1 and 2 (child of 1);
+--   block 11 = [9 (award), 1] confirms 1; then a walk to the sibling block 12 = [8 (award), 3], 3 spends the input of 1.
+-- (`Ledger`, `ChainLog`) holds after every step with the logs [], [100], [100, 9, 1], [100, 8, 3].
+private def clEnv : Env := {
+  txs := [
+    (100, ⟨100, true, [], [⟨"u0", 16, 0⟩], [], []⟩),
+    (1, ⟨1, false, [⟨100, 0, "u0", 16, 0, false⟩], [⟨"u1", 10, 0⟩, ⟨"u0", 4, 0⟩, ⟨"$", 2, 0⟩], [], []⟩),
+    (2, ⟨2, false, [⟨1, 0, "u1", 10, 0, false⟩], [⟨"u2", 9, 0⟩, ⟨"$", 1, 0⟩], [], []⟩),
+    (3, ⟨3, false, [⟨100, 0, "u0", 16, 0, false⟩], [⟨"u3", 16, 0⟩], [], []⟩),
+    (9, ⟨9, true, [], [⟨"miner", 10, 0⟩], [], []⟩),
+    (8, ⟨8, true, [], [⟨"miner2", 10, 0⟩], [], []⟩)],
+  blocks := [
+    (10, ⟨10, some 0, 1, [100], "g"⟩),
+    (11, ⟨11, some 10, 2, [9, 1], "miner"⟩),
+    (12, ⟨12, some 10, 2, [8, 3], "miner2"⟩)] }
+private def clS1 : St := (play clEnv {} 0 (clEnv.block 10)).1
+private def clS3 : St := (doTx clEnv (doTx clEnv clS1 0 1).1 0 2).1
+private def clS4 : St := (play clEnv clS3 0 (clEnv.block 11)).1
+
+private theorem clEnv_lower : ParentLower clEnv := parentLower_of_blocks _ (by decide)
+
+private theorem clS4_Ledger : Ledger clEnv clS4 [100, 9, 1] := by
+  have g1 : Ledger clEnv clS1 [100] := by
+    have := play_Ledger_full clEnv {} 0 (clEnv.block 10) [] (Ledger_genesis clEnv) (by decide) (by decide) (by decide)
+      (by decide)
+    rw [if_pos (by decide)] at this
+    exact this
+  have g2 := doTx_Ledger clEnv clS1 0 1 [100] g1 (fun _ => by decide)
+  have g3 : Ledger clEnv clS3 [100] := doTx_Ledger clEnv _ 0 2 [100] g2 (fun _ => by decide)
+  have := play_Ledger_full clEnv clS3 0 (clEnv.block 11) [100] g3 (by decide) (by decide) (by decide) (by decide)
+  rw [if_pos (by decide)] at this
+  exact this
+
+-- the walk from 11 (pool [2]) to the sibling 12: every hypothesis of `walk_Ledger_chain` holds, the walk succeeds, and
+-- the log it re-establishes is that of the path 0, 10, 12
+example : ParentLower clEnv ∧ Ledger clEnv clS4 [100, 9, 1] ∧ ChainLog clEnv clS4 [100, 9, 1] ∧
+    (clEnv.block 12).id = 12 ∧ undoTodo clEnv clS4.pointer 12 = ([11], [12]) ∧
+    (blockTxs clEnv (ancestors clEnv (clEnv.blocks.length + 1) 12).reverse).Nodup ∧
+    (∀ bi ∈ (undoTodo clEnv clS4.pointer 12).2, (∀ i ∈ (clEnv.block bi).txs, (clEnv.tx i).id = i) ∧
+      (∀ i ∈ (clEnv.block bi).txs, (clEnv.tx i).coinbase = true →
+        (clEnv.tx i).ins = [] ∧ feeOf (clEnv.tx i).outs = 0)) ∧
+    (∀ i ∈ clS4.pool, i ∈ blockTxs clEnv (ancestors clEnv (clEnv.blocks.length + 1) 12).reverse →
+      (clEnv.tx i).ins ≠ []) ∧
+    (walk clEnv clS4 0 12 false).2 = true ∧ (walk clEnv clS4 0 12 false).1.pointer = 12 ∧
+    (walk clEnv clS4 0 12 false).1.pool = [] ∧
+    ChainLog clEnv (walk clEnv clS4 0 12 false).1 [100, 8, 3] :=
+  ⟨clEnv_lower, clS4_Ledger, by decide, by decide, by decide, by decide, by decide, by decide, by decide, by decide,
+    by decide, by decide⟩
+example : Ledger clEnv (walk clEnv clS4 0 12 false).1 [100, 8, 3] := by
+  obtain ⟨C', c1, c2⟩ := walk_Ledger_chain clEnv clS4 0 12 false [100, 9, 1] clEnv_lower clS4_Ledger (by decide)
+    (by decide) (by decide) (by decide) (by decide)
+  have h3 : ChainLog clEnv (walk clEnv clS4 0 12 false).1 C' := c2 (by decide)
+  have h4 : C' = [100, 8, 3] := by
+    unfold ChainLog at h3
+    rw [h3]; decide
+  rw [← h4]; exact c1
 
 end XV.C01
